@@ -396,6 +396,9 @@ fn tamper_at(p: &mut SP, class: &str, real_layer: Option<usize>, r: &mut ChaCha8
     let round = if class.ends_with("@last") { nrounds - 1 } else if matches!(base, "init_path" | "step_path") { 0 } else { r.gen_range(0..nrounds) };
     match base {
         "pis" => {
+            if p.public_inputs.is_empty() {
+                return None;
+            }
             let i = r.gen_range(0..p.public_inputs.len());
             bump(&mut p.public_inputs[i], r);
             return Some(json!({"i": i}));
